@@ -33,6 +33,7 @@ def run_case(case: dict) -> dict:
     else:
         node = build([(t, 8 * enc.NUM_SIZE[t])])
         pm = node.rpdo[1]
+        pm.cob_id = 0x201
         var = pm.add_variable(0x2000, 0)
         odv = var.od
     odv.factor = fn / fd
@@ -49,6 +50,20 @@ def run_case(case: dict) -> dict:
             if o == "setraw":
                 e["v"] = limb(op["v"])
                 var.raw = op["v"]
+            elif o == "setdata":
+                # the value changes by a path other than .raw on this object (a received PDO / the
+                # device changing its own object / a write through .data)
+                e["e"] = "setraw"
+                e["v"] = limb(op["v"])
+                size = enc.NUM_SIZE[t]
+                b = int(op["v"]).to_bytes(size, "little", signed=enc.INT[t][1])
+                if case["kind"] == "sdo":
+                    if op.get("how") == "other":
+                        node.sdo[0x2000].data = b
+                    else:
+                        var.data = b
+                else:
+                    pm.on_message(pm.cob_id, bytearray(b), 1.0) if op.get("how") == "other" and pm.cob_id else var.set_data(b)
             elif o == "phys_set":
                 e["vn"], e["vd"] = op["vn"], op["vd"]
                 var.phys = op["vn"] / op["vd"]
